@@ -1,27 +1,90 @@
-"""setup_cmd: the seams exist, a run is deterministic, manifest and known-findings files parse."""
+"""setup_cmd: the seams exist, runs are deterministic, manifest and known-findings files parse.
+
+Determinism is proven on a sample of every check's tasks:
+  * the same tasks are executed twice in this interpreter (fingerprint = digests of the event logs + violation
+    signatures) and
+  * once more in a FRESH interpreter with another PYTHONHASHSEED, with address-space randomisation left ON and a
+    different worker count,
+and all fingerprints must agree.  A disagreement is a HARNESS error (exit 2), never a pass.
+"""
+import hashlib
 import json
 import os
+import subprocess
 import sys
 
-from sim import world
+from sim import harness, world
+
+CHECKS = ['c04', 'c05', 'c06', 'c13', 'c14', 'c15', 'c17', 'c20']
+
+
+def fingerprint(modname, workers, n=None):
+    check = __import__(modname)
+    tasks = check.determinism_sample(check.tasks(424242, 'quick'))
+    if n:
+        tasks = tasks[:n]
+    agg = harness.run_tasks(check, tasks, workers, 120)
+    if agg.harness:
+        return ['HARNESS:' + agg.harness[0][:200], 0, '']
+    h = hashlib.blake2b(digest_size=10)
+    for d in sorted(agg.sets.get('digests', ())):
+        h.update(str(d).encode())
+    # the verdict fingerprint is independent of the ORDER of events inside a run (which legitimately follows the
+    # iteration order of string sets, i.e. PYTHONHASHSEED): violation signatures, run count and every counter
+    # (faults fired per kind, probes hit, ops executed ...)
+    v = hashlib.blake2b(digest_size=10)
+    for s in sorted(x['sig'] for x in agg.violations):
+        v.update(s.encode())
+        h.update(s.encode())
+    v.update(json.dumps([agg.runs, sorted((k, int(n)) for k, n in agg.counters.items() if not k.startswith('events_')
+                                           and k not in ('preemptions_total', 'tolerated_lazy_module_keys'))]).encode())
+    return [h.hexdigest(), agg.runs, v.hexdigest()]
+
+
+def fingerprints(workers):
+    world.setup_template()
+    return {m: fingerprint(m, workers, n=3 if m in ('c04', 'c05') else 2) for m in CHECKS}
 
 
 def main():
     world.setup_template()
-    import c04
     from sim.monitor import MONITOR
     assert MONITOR.installed
     problems = []
-    # seam liveness + determinism on a handful of seeds
-    ts = [t for t in c04.tasks(1, 'quick') if t['kind'] == 'prog'][:4]
+    import c04
+    ts = [t for t in c04.tasks(1, 'quick') if t['kind'] == 'prog'][:3]
     for t in ts:
         spec = c04.with_fault(c04.build_program_task(t), 1, 'ValueError')
         a = world.fork_run(c04.execute, spec)
-        b = world.fork_run(c04.execute, spec)
-        if a['digest'] != b['digest']:
-            problems.append('nondeterministic digest for %s' % t['id'])
         if not a['obs'][-1]['fired']:
             problems.append('fault injection seam did not fire for %s' % t['id'])
+    fa = fingerprints(8)
+    fb = fingerprints(3)
+    env = dict(os.environ)
+    env.update({'PYTHONHASHSEED': '1', 'VERIF_NO_SETARCH': '1', 'VERIF_FINGERPRINT_WORKERS': '5'})
+    env.pop('VERIF_REEXEC', None)
+    out = subprocess.run([sys.executable, os.path.join(world.VERIF, 'checks', 'run.py'), '--fingerprint'],
+                         env=env, capture_output=True, text=True, timeout=600)
+    try:
+        fc = json.loads(out.stdout.strip().splitlines()[-1])
+    except Exception:
+        fc = {}
+        problems.append('fresh-interpreter fingerprint run failed: %s %s' % (out.stdout[-300:], out.stderr[-300:]))
+    runs = 0
+    hashseed_sensitive = []
+    for m in CHECKS:
+        runs += fa[m][1]
+        if str(fa[m][0]).startswith('HARNESS'):
+            problems.append('%s: %s' % (m, fa[m][0]))
+        elif fa[m][0] != fb[m][0]:
+            problems.append('%s: nondeterministic between two executions in one interpreter (8 vs 3 workers)' % m)
+        elif fa[m][2] != fb[m][2]:
+            problems.append('%s: verdict fingerprint differs between two executions in one interpreter' % m)
+        elif fc and fa[m][2] != fc.get(m, [None, None, None])[2]:
+            problems.append('%s: verdict fingerprint (violations, runs, fault/probe counters) differs in a fresh interpreter with '
+                            'PYTHONHASHSEED=1, ASLR on, 5 workers' % m)
+        elif fc and fa[m][0] != fc.get(m, [None])[0]:
+            hashseed_sensitive.append(m)
     with open(os.path.join(world.VERIF, 'MANIFEST.json')) as f:
         m = json.load(f)
     try:
@@ -31,9 +94,21 @@ def main():
     except (ImportError, FileNotFoundError):
         pass
     with open(os.path.join(world.VERIF, 'known_findings.json')) as f:
-        json.load(f)
+        kf = json.load(f)
+    for e in kf.get('findings', []):
+        if e.get('status', 'open') == 'open' and e.get('replay') and not os.path.exists(os.path.join(world.VERIF, e['replay'])):
+            problems.append('known finding without its witness replay: %s' % e['replay'])
     for p in problems:
         print('HARNESS: %s' % p)
-    print('selftest %s (aslr=%s hashseed=%s)' % ('FAILED' if problems else 'ok', os.environ.get('VERIF_ASLR'),
-                                                 os.environ.get('PYTHONHASHSEED')))
+    if hashseed_sensitive:
+        print('note: event ORDER inside runs depends on PYTHONHASHSEED for %s (iteration over string sets inside pedal); '
+              'verdicts and all counters agree, and the checks pin PYTHONHASHSEED=0' % ', '.join(hashseed_sensitive))
+    print('selftest %s: %d simulated runs compared across 3 executions (aslr=%s hashseed=%s)' % (
+        'FAILED' if problems else 'ok', runs, os.environ.get('VERIF_ASLR'), os.environ.get('PYTHONHASHSEED')))
     return 2 if problems else 0
+
+
+def print_fingerprints():
+    w = int(os.environ.get('VERIF_FINGERPRINT_WORKERS', '4'))
+    print(json.dumps(fingerprints(w)))
+    return 0
